@@ -315,6 +315,10 @@ def finish(prop, tier, seed, results, harness_errors, t0, eng, min_budget=300, m
         groups = {}
         for r in viols:
             groups.setdefault(core.digest(r['violation']['signature']), []).append(r)
+        for gk, g in sorted(groups.items(), key=lambda kv: -len(kv[1])):
+            lines.append('  violation-group n=%d signature=%s e.g. run %d: %s' % (
+                len(g), json.dumps(g[0]['violation']['signature'], sort_keys=True), g[0]['run'],
+                g[0]['violation']['detail'][:160]))
         jobs = []
         for g in list(groups.values())[:3]:
             r = min(g, key=lambda r: (r.get('nsteps', 0), r['run']))
